@@ -19,6 +19,19 @@ PATTERNS = [
     r"celeritas::detail::QuadricSphereConverter::operator\(\)$",
     r"celeritas::detail::QuadricCylConverter::operator\(\)$",
     r"celeritas::detail::QuadricConeConverter::operator\(\)$",
+    # C18: device-portable algorithms interpreted over orderings (lib/ordinterp.py)
+    r"celeritas::detail::(sift_down|pop_heap|make_heap|sort_heap|partial_sort|heapsort_impl)$",
+    r"celeritas::detail::(partition_impl|lower_bound_impl|upper_bound_impl|lower_bound_linear_impl)$",
+    r"celeritas::detail::(half_positive|trivial_move)$",
+    r"celeritas::(sort|partition|lower_bound|lower_bound_linear|upper_bound|find_sorted|min_element)$",
+    r"celeritas::(all_of|any_of|all_adjacent|trivial_swap|move|forward)$",
+    r"celeritas::Less::operator\(\)$",
+    r"celeritas::orangeinp::detail::(\(anonymous namespace\)::)?calc_(intersection|union|difference)$",
+    r"celeritas::orangeinp::detail::BoundingZone::(negate|from_infinite)$",
+    # C15: unit-vector identities (lib/polyinterp.py + relations) and sampler shapes
+    r"celeritas::(from_spherical|make_unit_vector|norm)$",
+    r"celeritas::(IsotropicDistribution|UniformBoxDistribution|UniformRealDistribution)::",
+    r"celeritas::SurfaceClipper::operator\(\)",
 ]
 
 
